@@ -175,27 +175,35 @@ pub fn c18(rec: &mut Rec, lm: &Landmarks, rng: &mut Rng, thorough: bool) {
         let x = any_f64(rng);
         m.f64_unit(x, *rng.pick(&UNITS), (i % 4) as u8);
     }
-    // Duration * f64, |d| <= 10 000 years, finite x
+    // Duration * f64, any duration, finite x
     let span = 100 * NPC as i128;
-    let xs: Vec<f64> = vec![0.0, 1.0, -1.0, 0.5, 0.1, 0.3, 2.0, 1.5, 10.598, 1e-9, 1e-10, 1e-300, 0.123456789012345678, 3.0, 1e3, 1e-3, 7.25, -0.75, 1e6, 123456.789, 2f64.powi(-20), 0.999_999_999_999_999_9];
-    let nm = if thorough { 120_000 } else { 5_000 };
+    let full = (i16::MAX as i128 + 1) * NPC as i128;
+    let xs: Vec<f64> = vec![0.0, 1.0, -1.0, 0.5, 0.1, 0.3, 2.0, 1.5, 10.598, 1e-9, 1e-10, 1e-300, 0.123456789012345678, 3.0, 1e3, 1e-3, 7.25, -0.75, 1e6, 123456.789, 2f64.powi(-20), 0.999_999_999_999_999_9, 0.011, 0.7, 1.0 / 3.0, 0.12345678901234567, -0.98765432109876543, 2.5, 1e-7 / 3.0];
+    let nm = if thorough { 160_000 } else { 7_000 };
     for i in 0..nm {
-        let v = match rng.below(4) {
+        let v = match rng.below(6) {
             0 => rng.log_i128(68).clamp(-span, span),
             1 => (rng.i128().rem_euclid(2 * span)) - span,
             2 => rng.below(1_000_000) as i128 * *rng.pick(&[1i128, 1000, 1_000_000, NS_S as i128, 60 * NS_S as i128, NS_DAY as i128]),
-            _ => (rng.below(200) as i128 - 100) * NPC as i128 + rng.below(5) as i128 - 2,
+            3 => (rng.below(200) as i128 - 100) * NPC as i128 + rng.below(5) as i128 - 2,
+            4 => rng.i128().rem_euclid(2 * full) - full,
+            _ => rng.below(100_000) as i128 * NS_S as i128,
         };
         let (c, nn) = ns_dur(v).to_parts();
         m.load(c, nn);
-        let x = if i % 3 == 0 {
-            *rng.pick(&xs)
-        } else {
-            let y = any_f64(rng);
-            if y.is_finite() {
-                y.clamp(-1e12, 1e12)
-            } else {
-                1.0
+        let x = match i % 4 {
+            0 => *rng.pick(&xs),
+            // short decimal expansions: the products are whole numbers of nanoseconds for round durations
+            1 => (rng.below(100_000) as f64 - 50_000.0) / *rng.pick(&[10.0, 100.0, 1000.0, 10_000.0, 1.0e6]),
+            // full-precision factors
+            2 => (rng.below(1 << 53) as f64 / (1u64 << 53) as f64) * *rng.pick(&[1.0, -1.0, 10.0, 0.001]),
+            _ => {
+                let y = any_f64(rng);
+                if y.is_finite() {
+                    y.clamp(-1e12, 1e12)
+                } else {
+                    1.0
+                }
             }
         };
         m.mul_f64(x, i % 2 == 0);
